@@ -785,4 +785,74 @@ func checkC19(p *Prog, r *Report) {
 			r.Fail("appendHostMappedAddrs adds every convertible external address", p.Pos(f.Body.Pos()), "no loop over the external addresses")
 		}
 	}
+
+	// ---- R19.9 legacy catch-all bookkeeping is monotone -----------------------------------------------------
+	r.Rule("R19.9", "validateLegacyNAT1To1Entry never forgets a catch-all it has seen: on every return each family flag is the incoming flag or true, so a later duplicate catch-all of that family is still rejected whatever entries lie in between.", 1)
+	if f := p.Fn("validateLegacyNAT1To1Entry"); r.Anchor("validateLegacyNAT1To1Entry", f != nil) {
+		in4, in6 := p.paramObj(f, 1), p.paramObj(f, 2)
+		bad := ""
+		n := 0
+		walkBody(f, func(x ast.Node) bool {
+			rs, ok := x.(*ast.ReturnStmt)
+			if !ok || len(rs.Results) != 3 {
+				return true
+			}
+			n++
+			for i, in := range []types.Object{in4, in6} {
+				v, _ := p.ConstVal(rs.Results[i])
+				if !p.isObj(rs.Results[i], in) && v != "true" {
+					bad = "a return yields " + stripVarLines(p.Canon(rs.Results[i])) + " for family flag " + itoa(i) + " (" + p.Pos(rs.Pos()) + ")"
+				}
+			}
+			return true
+		})
+		r.Check(bad == "" && n > 0, "legacy validation keeps the catch-all flags", p.Pos(f.Body.Pos()), itoa(n)+" returns, each flag is the incoming one or true", bad+": an entry in between erases the memory of an earlier catch-all and a duplicate legacy catch-all is accepted")
+	}
+
+	// ---- R19.10 interface resolution compares addresses in one form -----------------------------------------
+	r.Rule("R19.10", "findIfaceForIP (the interface name that scopes srflx / relay rule lookups) compares the local address with the interface addresses in a form that is insensitive to the 4-byte / 16-byte spelling of an IPv4 address: text on both sides, or netip addresses that were unmapped.", 1)
+	if f := p.Fn("findIfaceForIP"); r.Anchor("findIfaceForIP", f != nil) {
+		n, ok := 0, true
+		why := ""
+		walkBody(f, func(x ast.Node) bool {
+			be, isB := x.(*ast.BinaryExpr)
+			if !isB || (be.Op != token.EQL && be.Op != token.NEQ) || p.isNilExpr(be.X) || p.isNilExpr(be.Y) {
+				return true
+			}
+			if typeStr(p.TypeOf(be.X)) != "string" && typeStr(p.TypeOf(be.X)) != "net/netip.Addr" {
+				return true
+			}
+			n++
+			for _, side := range []ast.Expr{be.X, be.Y} {
+				switch typeStr(p.TypeOf(side)) {
+				case "string":
+					c, isC := unparen(side).(*ast.CallExpr)
+					if !isC || !strings.HasSuffix(p.CalleeName(c), ".String") {
+						ok, why = false, "a text operand is not an address's String()"
+					}
+				case "net/netip.Addr":
+					// a value converted from a byte slice must be unmapped; interface addresses are stored unmapped
+					conv := false
+					ast.Inspect(side, func(y ast.Node) bool {
+						if c, isC := y.(*ast.CallExpr); isC && p.CalleeName(c) == "net/netip.AddrFromSlice" {
+							conv = true
+						}
+						return true
+					})
+					if id, isID := unparen(side).(*ast.Ident); isID {
+						if d, okd := p.SingleDef(f, p.ObjOf(id)); okd && d.Rhs != nil && p.mentionsCall(d.Rhs, "net/netip.AddrFromSlice") {
+							conv = true
+						}
+					}
+					if conv && !p.mentionsCall(side, "net/netip.Addr.Unmap") {
+						ok, why = false, "an address converted from a byte slice is compared without Unmap(): a 16-byte IPv4 address never equals the stored interface address"
+					}
+				default:
+					ok, why = false, "operands of type "+typeStr(p.TypeOf(side))
+				}
+			}
+			return true
+		})
+		r.Check(ok && n > 0, "findIfaceForIP compares addresses in one form", p.Pos(f.Body.Pos()), "String() == String()", why+": interface-scoped srflx / relay rules are skipped and a less specific rule decides the advertised address")
+	}
 }
